@@ -254,5 +254,26 @@ def alphabet():
         C("TwoLevel", (3, 1, "RAM", "revolve"), 7),
         C("TwoLevel", (4, 1, "DISK", "revolve"), 8),
         C("TwoLevel", (4, 1, "DISK", "maximum"), 8),
+        # neighbours in one *integer* parameter (n, RAM units, disk units,
+        # period): what a cache that reuses a "larger" entry confuses
+        C("HRevolve", (2, 1) + d, 6),
+        C("HRevolve", (1, 2) + d, 6),
+        C("HRevolve", (1, 1) + d, 7),
+        C("HRevolve", (1, 1) + d, 5),
+        C("HRevolve", (2, 1) + d, 5),
+        C("HRevolve", (3, 1) + d, 4),
+        C("HRevolve", (1, 1) + d, 4),
+        C("DiskRevolve", (2,) + d, 6),
+        C("DiskRevolve", (1,) + d, 7),
+        C("Revolve", (3,) + d, 6),
+        C("Revolve", (2,) + d, 7),
+        C("PeriodicDiskRevolve", (2,) + d, 9),
+        C("PeriodicDiskRevolve", (1,) + d, 10),
+        C("Multistage", (3, 0, "maximum"), 7),
+        C("Multistage", (2, 0, "maximum"), 8),
+        C("Mixed", (3, "RAM"), 7),
+        C("Mixed", (2, "RAM"), 8),
+        C("TwoLevel", (3, 2, "RAM", "maximum"), 7),
+        C("TwoLevel", (4, 1, "RAM", "maximum"), 7),
     ]
     return full, full[:12]
